@@ -128,6 +128,14 @@ def _k_odt(c) -> CaseInfo:
     if not expect_odt(lambda: I.with_offset(O, cal), i, o, cid, "with_offset(instant)"):
         return CaseInfo(True, "odt:construction-raises")
     a = I.with_offset(O, cal)
+    if cid == "ISO":
+        # the routes that take no calendar argument (they use the ISO day-number fast paths): same value
+        a0 = I.with_offset(O)
+        check_odt(a0, i, o, "ISO", "with_offset(instant) [no calendar]")
+        need(a0 == a, "with_offset/no-calendar-differs")
+        u = I.in_utc()
+        need(inst_ns(u.to_instant()) == i and u.offset.seconds == 0 and pyo.ldt_total(u.local_date_time) == i and u.calendar is cal, "in_utc", f"{i}")
+        need(pyo.fields(u.date) == pyo.fields(pyo.date_from_day("ISO", i // DAY)), "in_utc/date-fields", f"{i}: {pyo.fmt_date(u.date)}")
     # public constructor from the local date-time
     b = OffsetDateTime(a.local_date_time, O)
     check_odt(b, i, o, cid, "ctor(ldt,offset)")
@@ -229,6 +237,13 @@ def _k_zdt(c) -> CaseInfo:
         need(zz.date == zz.local_date_time.date and zz.time_of_day == zz.local_date_time.time_of_day, f"{what}/parts")
 
     check(z, i, "in_zone")
+    if cid == "ISO":
+        z0 = I.in_zone(zone)
+        check(z0, i, "in_zone [no calendar]")
+        need(z0 == z and pyo.fields(z0.date) == pyo.fields(pyo.date_from_day("ISO", total // DAY)), "in_zone/no-calendar-differs", f"{i} {zid}")
+        z00 = ZonedDateTime(instant=I, zone=zone)
+        check(z00, i, "ctor(instant,zone) [no calendar]")
+        need(z00 == z, "ctor(instant,zone)/no-calendar-differs")
     z2 = ZonedDateTime(instant=I, zone=zone, calendar=cal)
     check(z2, i, "ctor(instant,zone,calendar)")
     need(z == z2, "ctor-equals-in_zone")
@@ -268,6 +283,7 @@ def task_hyp(ctx: Ctx, shard: int, n: int) -> None:
         ints_biased(INST_MIN, INST_MIN + 40 * 3600 * SEC, (SEC, 3600 * SEC)),
         ints_biased(INST_MAX - 40 * 3600 * SEC, INST_MAX, (SEC, 3600 * SEC)),
         ints_biased(-30000 * DAY, 30000 * DAY, units),
+        ints_biased(-26000 * DAY, 48500 * DAY, (DAY, 365 * DAY)),  # 1898 .. 2102: the ISO day-number fast-path window and its edges
     )
     offs = st.one_of(ints_biased(-OFF_MAX, OFF_MAX, (60, 900, 3600)), st.sampled_from([-OFF_MAX, OFF_MAX, 0, 1, -1, 43200, -43200]))
     durs = st.one_of(
@@ -300,6 +316,10 @@ def task_hyp(ctx: Ctx, shard: int, n: int) -> None:
                         ix = day0 + nod_local + dl - oo * SEC
                         if INST_MIN <= ix <= INST_MAX:
                             ctx.case("odt", {"i": ix, "o": oo, "cal": cid if near % 2 else "ISO", "o2": oo2, "cal2": cid2, "d": d, "i2": i2})
+        # the two edge years of the ISO day-number fast path (1900 and 2100 are the non-leap century years in it)
+        edge_i = Z.year_start_ns(2100 if near % 2 else 1900) + i % (366 * DAY)
+        ctx.case("odt", {"i": edge_i, "o": o, "cal": "ISO", "o2": o2, "cal2": cid2, "d": d, "i2": i2})
+        ctx.case("zdt", {"i": edge_i, "zone": zid, "cal": "ISO", "d": d})
         ctx.case("zdt", {"i": ii, "zone": zid, "cal": cid, "d": d})
         ctx.case("zdt", {"i": i, "zone": zid, "cal": "ISO", "d": d})
 
